@@ -219,7 +219,8 @@ func checkRecoveryProcedure(c *Ctx, p *Prog, rule, dir string) {
 			return VTuple{VSym{Name: "RS"}, boolConst(found)}, nil
 		}
 		reg := &Region{Fn: pop, Cuts: cutSet(loopHeaders(pop)...), Summaries: sm}
-		out := InterpretSafe(reg, &MapWorld{Ints: map[string]int64{"len(popped)": 0}})
+		// the recovery state lies on the stack: 0 <= rs <= topIndex (an assertion of that must not fire)
+		out := InterpretSafe(reg, &MapWorld{Ints: map[string]int64{"len(popped)": 0, "RS": 2}, IntFn: func(n string) (int64, bool) { return 5, strings.HasPrefix(n, "TOPINDEX") }})
 		evs := strings.Join(out.Events, "; ")
 		var ok bool
 		if found {
